@@ -774,8 +774,8 @@ func (x *Exec) loopEnter(fr *Frame, st *State, h *ssa.BasicBlock, ord int) {
 			delete(st.calls, strings.TrimPrefix(k, "call:"))
 		} else if cur, ok := st.ghost[k]; ok {
 			st.ghost[k] = x.c.Fresh("ghost", cur.S)
-		} else if strings.HasPrefix(k, "lock:") {
-			st.ghost[k] = x.c.Fresh("ghost", SInt)
+		} else if g := x.ghostInit(k); g != nil {
+			st.ghost[k] = x.c.Fresh("ghost", g.S)
 		} else {
 			st.ghost[k] = x.c.Fresh("ghost", idxSort)
 		}
